@@ -62,7 +62,11 @@ TDOC = {"getter": (True, False), "setter": (False, True), "getter;setter": (True
 
 
 def ntype_sexp(s, gofile, getset):
-    item = ["T", Q(s["name"]), Q(out_file(gofile, "new", s["name"])), ["tree"] + newgen.members_sexp(s)]
+    ms = newgen.members_sexp(s)
+    for m, it in zip(s["members"], ms):
+        if m["k"] == "f" and m.get("json") is not None:
+            it.append(["json", Q(m["json"])])          # explicit json tag of a top-level field (kept verbatim by the tool)
+    item = ["T", Q(s["name"]), Q(out_file(gofile, "new", s["name"])), ["tree"] + ms]
     gs = ["gs"]
     for m in s["members"]:
         if m["k"] == "f" and not newgen.skip_of(m, True):
@@ -127,6 +131,14 @@ def hand_struct(name, members, typedoc=None):
     return {"name": name, "tparams": [], "typedoc": typedoc, "members": members}
 
 
+def flags_sexp(flags):
+    out = [f[1:] for f in flags if f in ("-getset", "-json", "-opt", "-short")]
+    for f in flags:
+        if f.startswith("-tagcase="):
+            out.append(["tagcase", f.split("=", 1)[1]])
+    return out
+
+
 def build_new_pkg(listed, flags, star=False, extra_feats=(), render=None):
     """package spec from the struct specs to list (in `-type` order) and the flags; `render`: the struct specs in the
     order in which they are to be declared in the file (default: each listed type followed by the types it embeds)"""
@@ -152,7 +164,7 @@ def build_new_pkg(listed, flags, star=False, extra_feats=(), render=None):
             feats["cross-embed"] = 1
 
     def model(order_names, mode="combined", disk=(), orig=None, leaks="today"):
-        p = [["cmd", "new"], ["leaks", leaks], ["flags"] + [f[1:] for f in flags if f in ("-getset", "-json")], ["mode", mode],
+        p = [["cmd", "new"], ["leaks", leaks], ["flags"] + flags_sexp(flags), ["mode", mode],
              ["disk"] + list(disk), ["types"] + [ntype_sexp(by_name[nm], gofile, getset) for nm in order_names]]
         if orig is not None:
             p.append(["orig"] + [Q(x) for x in orig])
@@ -184,12 +196,15 @@ def gen_new_pkg(rng, force=None):
     generic_p = force.get("generic", 0.15)
     opt = force.get("opt", rng.random() < 0.2)
     if opt:
-        generic_p = 0.0          # -opt on a generic struct does not format (a C01/C13 matter)
         flags.append("-opt")
+        if rng.random() < 0.4:
+            flags.append("-short")
+    if js and rng.random() < 0.4:
+        flags.append("-tagcase=" + rng.choice(["pascal", "lower", "upper", "camel"]))
     mark_p = force.get("mark", rng.choice([0, 0.3, 0.6]))
     structs = []
     for nm in names:
-        o = {"maxfields": 4, "maxdepth": 2, "generic": generic_p, "getset_dirs": getset,
+        o = {"maxfields": 4, "maxdepth": 2, "generic": generic_p, "getset_dirs": getset, "json_tags": js and rng.random() < 0.5,
              "new": (rng.choice([0.3, 0.6]) if rng.random() < mark_p else 0), "underscore": 0.05, "tagskip": 0.04}
         s = g.top(nm, **o)
         if getset and rng.random() < 0.25:
@@ -529,11 +544,13 @@ def csv(xs):
 
 
 def new_lines(name, facts):
-    f = facts or {"params": [], "gi": [], "si": [], "gl": [], "sl": [], "json": False, "jget": [], "jset": [], "jexp": []}
+    f = facts or {"params": [], "gi": [], "si": [], "gl": [], "sl": [], "json": False, "jget": [], "jset": [], "jexp": [],
+                  "tags": [], "opts": [], "defs": []}
     # the NUMBER of constructor parameters (which fields become parameters under the `new` marks); their spelling is C02's subject
     return {"nparams:" + name: str(len(f["params"])), "gi:" + name: csv(f["gi"]), "si:" + name: csv(f["si"]),
             "gl:" + name: csv(f["gl"]), "sl:" + name: csv(f["sl"]), "json:" + name: "true" if f["json"] else "false",
-            "jget:" + name: csv(sorted(f["jget"])), "jset:" + name: csv(sorted(f["jset"])), "jexp:" + name: csv(sorted(f["jexp"]))}
+            "jget:" + name: csv(sorted(f["jget"])), "jset:" + name: csv(sorted(f["jset"])), "jexp:" + name: csv(sorted(f["jexp"])),
+            "tags:" + name: csv(sorted(f["tags"])), "opts:" + name: csv(f["opts"]), "defs:" + name: csv(f["defs"])}
 
 
 def map_lines(name, f):
